@@ -18,11 +18,11 @@ LEVELS = {
          "Runtime monitor with negative probing: at every wait point of generated hands every unexpected operation on every seat is actually called on the live game and must fail leaving the JSON state identical; the seat asked is compared with a turn-order shadow."),
  "C05": ("exploration", "round-closure shadow monitor (matched, had-a-turn, one-lap bound, run-out, early end)", "4.5",
          "Runtime monitor over RoundStarted/RoundClosed/Next transitions of generated hands with raise / short all-in / fold mixes."),
- "C06": ("exploration", "wait-point automaton + strictly decreasing variant + closed-accepts-nothing + invalid-start grid", "4.6",
+ "C06": ("exploration", "wait-point automaton + strictly decreasing variant + closed-accepts-nothing + invalid-start grid on fresh and pooled objects; an engine call that does not return is confirmed by an isolated replay; Go race detector on independent hands", "4.6",
          "Runtime monitor; termination is restated as bounded progress: a lexicographic variant must strictly decrease on every observed accepted operation (finite runs cannot decide 'every path is finite')."),
  "C07": ("fault_enumeration", "lock-step differential vs JSON-rebuilt game / NativeBackend / fresh OS process at every wait point; Go race detector on a shared backend", "4.7",
          "Fault = loss of everything not in the JSON (restart / backend hop), injected at every wait point of every explored history; followers must agree with the in-memory game after every operation. The shared-backend workload runs under the Go race detector."),
- "C08": ("exploration", "position oracle after every successful Next() + armed deal-in watch + engine hand-off", "4.8",
+ "C08": ("exploration", "position oracle after every successful Next() + armed deal-in watch + closed-seat invariant + engine hand-off; subset oracle for Next() under a seat-toggling goroutine", "4.8",
          "Runtime monitor over random seat histories and targeted join-between scenarios."),
  "C09": ("exploration", "tournament world ledger at quiescent points (read-only hook on the waiting queue); concurrent world under the Go race detector", "4.9",
          "Conservation monitor: every live player in exactly one place, counters equal real numbers, refusals without effect; checked after every completed step of random tournament histories."),
@@ -40,13 +40,13 @@ LEVELS = {
          "Runtime monitor over every viewer of every reachable state of generated hands."),
  "C16": ("exploration", "reference nested-pot partition vs GetPots(), direct vectors + every publication of real play", "4.16",
          "Reference-model monitor; small vector domain enumerated completely in thorough."),
- "C17": ("exploration", "button oracle on every Next() with the pre-state playable set", "4.17",
+ "C17": ("exploration", "button oracle on every Next() with the pre-state playable set; refusal only when fewer than two can play; the same under a seat-toggling goroutine", "4.17",
          "Runtime monitor over random seat histories; a panic is a violation."),
- "C18": ("exploration", "seat ledger under recover(); porcupine linearizability of recorded concurrent histories; Go race detector", "4.18",
+ "C18": ("exploration", "seat ledger under recover(); porcupine linearizability of recorded concurrent histories; hopper clients (counting argument); Go race detector", "4.18",
          "Sequential ledger monitor, offline linearizability check (porcupine) of concurrent Join/Leave/Count histories recorded at the client boundary, and the race detector on the same workload at several GOMAXPROCS."),
  "C19": ("exploration", "capacity monitor inside requestTableFn/assignPlayersFn/SyncState results; concurrent world under the Go race detector", "4.19",
          "Runtime monitor inside the tournament world callbacks over a settings grid."),
- "C20": ("exploration", "sweep-to-fixpoint driver with bounded sweep count; break returns everyone", "4.20",
+ "C20": ("exploration", "sweep-to-fixpoint driver with bounded sweep count under random and adversarial sync orders; break returns everyone", "4.20",
          "Convergence restated as bounded progress: from every reached world state, sweeps must reach a quiet sweep within tables+8 sweeps."),
 }
 
